@@ -1,5 +1,6 @@
 SPECIFICATION GenSpec
 CONSTANTS Malformed = "ascoded"
+ ApiErr = "ascoded"
  Variant = "none"
  AltForks = {"electra"}
 INVARIANTS Emit
